@@ -1,6 +1,7 @@
 import B6.Model.Shell
 import B6.Lemmas.Shell
 import B6.Lemmas.ShellSpans
+import B6.Lemmas.ShellLex
 /-!
 # C20 — Printed shell expressions parse back to the same expression
 
@@ -20,7 +21,7 @@ The lexer, `%q`, `strconv` and goyacc's tables are outside the theorems (the tie
 positioned parse tree with the real `UnparseExpression` / `ParseExpression` on every generated case).
 -/
 namespace B6.Props.C20
-open B6.Model.Shell B6.Model.FeatureID B6.Lemmas.Shell B6.Lemmas.ShellSpans
+open B6.Model.Shell B6.Model.FeatureID B6.Lemmas.Shell B6.Lemmas.ShellSpans B6.Lemmas.ShellLex
 
 /-- **Print, then parse.**  For every expression in the printable subset, of any depth: the printer
 succeeds with some tokens `ts`, and for every way of placing those tokens in a text (`pts`: the same
@@ -122,6 +123,248 @@ theorem print_parse_roundtrip (e : SE) (esc : Bool) (hp : e.printable esc = true
   refine ⟨n, pe, hstrip, fun hnp => ?_, hparse⟩
   obtain ⟨hn, hb, _⟩ := span_nesting_partial (0 + n) lo pts pe hs (hparse 0) hnp
   exact ⟨hn, hb⟩
+
+/-! ## the text layer: every token of a printable expression lexes back -/
+
+def AllLex (ts : List Tok) : Prop := ∀ t ∈ ts, t.lexable = true
+
+theorem allLex_append {a b : List Tok} (ha : AllLex a) (hb : AllLex b) : AllLex (a ++ b) := by
+  intro t ht
+  rcases List.mem_append.mp ht with h | h
+  · exact ha t h
+  · exact hb t h
+
+theorem allLex_single {t : Tok} (h : t.lexable = true) : AllLex [t] := by
+  intro x hx; simp only [List.mem_singleton] at hx; subst hx; exact h
+
+theorem keyTok_lexable (k : Bytes) (hne : k ≠ []) (hk : keyBare k = true) : (keyTok k).lexable = true := by
+  cases k with
+  | nil => exact absurd rfl hne
+  | cons c rest =>
+    simp only [keyBare, Bool.and_eq_true, Bool.or_eq_true, beq_iff_eq] at hk
+    unfold keyTok
+    split
+    · rename_i heq; simp only [List.cons.injEq] at heq; obtain ⟨rfl, rfl⟩ := heq
+      simp [Tok.lexable, hk.2]
+    · rename_i heq; simp only [List.cons.injEq] at heq; obtain ⟨rfl, rfl⟩ := heq
+      simp [Tok.lexable, hk.2]
+    · rename_i h35 h64
+      have hl : isLetter c = true := by
+        rcases hk.1 with (h | h) | h
+        · exact h
+        · exact absurd (by rw [h]) (h35 rest)
+        · exact absurd (by rw [h]) (h64 rest)
+      simp [Tok.lexable, hl, hk.2]
+
+theorem valueTok_lexable (v : Bytes) (hv : (valueBare v || plain v) = true) :
+    (if valueBare v then Tok.sym v else Tok.str v).lexable = true := by
+  by_cases hb : valueBare v = true
+  · simp only [hb, ↓reduceIte]
+    cases v with
+    | nil => simp [valueBare] at hb
+    | cons c rest => simpa [Tok.lexable, valueBare] using hb
+  · simp only [hb, Bool.false_eq_true, ↓reduceIte]
+    simp only [hb, Bool.false_or] at hv
+    simpa [Tok.lexable, plain, plainByte] using hv
+
+theorem tagToks_lexable (k v : Bytes) (hne : k ≠ []) (hk : keyBare k = true)
+    (hv : (valueBare v || plain v) = true) : AllLex (tagToks k v) := by
+  rw [tagToks_printable k v hk]
+  intro t ht
+  simp only [List.mem_cons, List.not_mem_nil, or_false] at ht
+  rcases ht with rfl | rfl | rfl
+  · exact keyTok_lexable k hne hk
+  · rfl
+  · exact valueTok_lexable v hv
+
+mutual
+theorem q_lexable : ∀ (q : Q), q.printable false = true → AllLex q.toks ∧ AllLex q.subToks
+  | .keyed k, hp => by
+    simp only [Q.printable, Bool.and_eq_true, decide_eq_true_eq] at hp
+    have := allLex_single (keyTok_lexable k hp.1 hp.2)
+    exact ⟨this, this⟩
+  | .tagged k v, hp => by
+    simp only [Q.printable, Bool.and_eq_true, decide_eq_true_eq, Bool.or_false] at hp
+    have := tagToks_lexable k v hp.1.1 hp.1.2 hp.2
+    exact ⟨this, this⟩
+  | .and qs, hp => by
+    simp only [Q.printable] at hp
+    have := ql_lexable qs 38 (by decide) hp
+    exact ⟨this, allLex_append (allLex_append (allLex_single rfl) this) (allLex_single rfl)⟩
+  | .or qs, hp => by
+    simp only [Q.printable] at hp
+    have := ql_lexable qs 124 (by decide) hp
+    exact ⟨this, allLex_append (allLex_append (allLex_single rfl) this) (allLex_single rfl)⟩
+theorem ql_lexable : ∀ (qs : QL) (op : Nat), isPunct op = true → qs.printable false = true → AllLex (qs.toks op)
+  | .nil, _, _, hp => by simp [QL.printable] at hp
+  | .cons q .nil, _, _, hp => by
+    simp only [QL.printable] at hp
+    simpa only [QL.toks] using (q_lexable q hp).2
+  | .cons q (.cons q' qs'), op, hop, hp => by
+    simp only [QL.printable, Bool.and_eq_true] at hp
+    have h1 := (q_lexable q hp.1).2
+    have h2 := ql_lexable (.cons q' qs') op hop (by simpa only [QL.printable, Bool.and_eq_true] using hp.2)
+    simp only [QL.toks]
+    exact allLex_append (allLex_append h1 (allLex_single hop)) h2
+end
+
+theorem lit_lexable (l : Lit) (hp : l.printable false = true) : AllLex l.toks := by
+  cases l with
+  | str s => simpa [Lit.printable, plain, plainByte, AllLex, Lit.toks, Tok.lexable] using hp
+  | int i => simpa [Lit.printable, AllLex, Lit.toks, Tok.lexable] using hp
+  | float t => simpa [Lit.printable, AllLex, Lit.toks, Tok.lexable] using hp
+  | point lat lng =>
+    simp only [Lit.printable, Bool.and_eq_true] at hp
+    intro t ht
+    simp only [Lit.toks, List.mem_cons, List.not_mem_nil, or_false] at ht
+    rcases ht with rfl | rfl | rfl
+    · exact hp.1
+    · rfl
+    · exact hp.2
+  | id f => simpa [Lit.printable, idLexable, AllLex, Lit.toks, Tok.lexable] using hp
+  | tag k v =>
+    simp only [Lit.printable, Bool.and_eq_true, decide_eq_true_eq, Bool.or_false] at hp
+    exact tagToks_lexable k v hp.1.1 hp.1.2 hp.2
+  | query q =>
+    simp only [Lit.printable] at hp
+    exact allLex_append (allLex_append (allLex_single rfl) (q_lexable q hp).1) (allLex_single rfl)
+
+theorem lambdaHead_lexable : ∀ (ps : List Bytes), ps.all symbolLike = true → AllLex (lambdaHead ps)
+  | [], _ => by intro t ht; simp [lambdaHead] at ht
+  | [p], h => by
+    simp only [List.all_cons, List.all_nil, Bool.and_true] at h
+    exact allLex_single (by cases p <;> simpa [symbolLike, Tok.lexable] using h)
+  | p :: p' :: ps, h => by
+    simp only [List.all_cons, Bool.and_eq_true] at h
+    have ih := lambdaHead_lexable (p' :: ps) (by simpa only [List.all_cons, Bool.and_eq_true] using h.2)
+    have hp : (Tok.sym p).lexable = true := by cases p <;> simpa [symbolLike, Tok.lexable] using h.1
+    simp only [lambdaHead]
+    intro t ht
+    simp only [List.mem_cons] at ht
+    rcases ht with rfl | rfl | ht
+    · exact hp
+    · rfl
+    · exact ih t ht
+
+mutual
+theorem se_lexable : ∀ (e : SE), e.printable false = true → ∀ (top : Bool) ts, e.toks top = .ok ts → AllLex ts
+  | .sym s, hp, _, ts, h => by
+    simp only [SE.toks, UR.ok.injEq] at h; subst h
+    exact allLex_single (by cases s <;> simpa [SE.printable, symbolLike, Tok.lexable] using hp)
+  | .lit l, hp, _, ts, h => by
+    simp only [SE.toks, UR.ok.injEq] at h; subst h
+    exact lit_lexable l (by simpa only [SE.printable] using hp)
+  | .lambda ps body, hp, _, ts, h => by
+    simp only [SE.printable, Bool.and_eq_true] at hp
+    simp only [SE.toks] at h
+    obtain ⟨bt, hb, h⟩ := UR.bind_ok _ _ _ h
+    simp only [UR.ok.injEq] at h; subst h
+    have := se_lexable body hp.2 true bt hb
+    exact allLex_append (allLex_append (allLex_append (allLex_append (allLex_single rfl)
+      (lambdaHead_lexable ps hp.1)) (allLex_single rfl)) this) (allLex_single rfl)
+  | .call f .nil false, hp, top, ts, h => by
+    simp only [SE.printable, Bool.and_eq_true] at hp
+    cases top with
+    | true => simp only [SE.toks] at h; exact se_lexable f hp.1.2 true ts h
+    | false =>
+      simp only [SE.toks] at h
+      obtain ⟨ft, hf, h⟩ := UR.bind_ok _ _ _ h
+      obtain ⟨ats, ha, h⟩ := UR.bind_ok _ _ _ h
+      simp only [SEL.toks, UR.ok.injEq] at ha; subst ha
+      simp only [Bool.false_eq_true, ↓reduceIte, UR.ok.injEq] at h; subst h
+      exact allLex_append (allLex_append (allLex_append (allLex_single rfl) (se_lexable f hp.1.2 false ft hf))
+        (by intro t ht; simp at ht)) (allLex_single rfl)
+  | .call f (.cons a as) false, hp, top, ts, h => by
+    simp only [SE.printable, Bool.and_eq_true] at hp
+    simp only [SE.toks] at h
+    obtain ⟨ft, hf, h⟩ := UR.bind_ok _ _ _ h
+    obtain ⟨ats, ha, h⟩ := UR.bind_ok _ _ _ h
+    have h1 := se_lexable f hp.1.2 false ft hf
+    have h2 := sel_lexable (.cons a as) hp.2 ats ha
+    cases top with
+    | true => simp only [↓reduceIte, UR.ok.injEq] at h; subst h; exact allLex_append h1 h2
+    | false =>
+      simp only [Bool.false_eq_true, ↓reduceIte, UR.ok.injEq] at h; subst h
+      exact allLex_append (allLex_append (allLex_append (allLex_single rfl) h1) h2) (allLex_single rfl)
+  | .call _ .nil true, hp, _, _, _ => by simp [SE.printable] at hp
+  | .call f (.cons a0 .nil) true, hp, top, ts, h => by
+    simp only [SE.printable, Bool.and_eq_true] at hp
+    simp only [SE.toks] at h
+    obtain ⟨lhs, hl, h⟩ := UR.bind_ok _ _ _ h
+    obtain ⟨rhs, hr, h⟩ := UR.bind_ok _ _ _ h
+    obtain ⟨ft, hf, hr⟩ := UR.bind_ok _ _ _ hr
+    simp only [UR.ok.injEq] at hr; subst hr
+    have h1 := se_lexable a0 hp.2 true lhs hl
+    have h2 := se_lexable f hp.1 true ft hf
+    have h3 : AllLex (pipedParen f ft) := by
+      unfold pipedParen
+      split
+      · exact allLex_append (allLex_append (allLex_single rfl) h2) (allLex_single rfl)
+      · exact h2
+    cases top with
+    | true =>
+      simp only [↓reduceIte, UR.ok.injEq] at h; subst h
+      exact allLex_append (allLex_append h1 (allLex_single rfl)) h3
+    | false =>
+      simp only [Bool.false_eq_true, ↓reduceIte, UR.ok.injEq] at h; subst h
+      exact allLex_append (allLex_append (allLex_append (allLex_append (allLex_single rfl) h1) (allLex_single rfl)) h3)
+        (allLex_single rfl)
+  | .call f (.cons a0 (.cons a1 as)) true, hp, top, ts, h => by
+    simp only [SE.printable, Bool.and_eq_true] at hp
+    simp only [SE.toks] at h
+    obtain ⟨lhs, hl, h⟩ := UR.bind_ok _ _ _ h
+    obtain ⟨rhs, hr, h⟩ := UR.bind_ok _ _ _ h
+    obtain ⟨ft, hf, hr⟩ := UR.bind_ok _ _ _ hr
+    obtain ⟨ats, ha, hr⟩ := UR.bind_ok _ _ _ hr
+    simp only [UR.ok.injEq] at hr; subst hr
+    have h1 := se_lexable a0 hp.1.2 true lhs hl
+    have h2 := se_lexable f hp.1.1.2 false ft hf
+    have h3 := sel_lexable (.cons a1 as) hp.2 ats ha
+    cases top with
+    | true =>
+      simp only [↓reduceIte, UR.ok.injEq] at h; subst h
+      exact allLex_append (allLex_append h1 (allLex_single rfl)) (allLex_append h2 h3)
+    | false =>
+      simp only [Bool.false_eq_true, ↓reduceIte, UR.ok.injEq] at h; subst h
+      exact allLex_append (allLex_append (allLex_append (allLex_append (allLex_single rfl) h1) (allLex_single rfl))
+        (allLex_append h2 h3)) (allLex_single rfl)
+theorem sel_lexable : ∀ (es : SEL), es.printable false = true → ∀ ts, es.toks = .ok ts → AllLex ts
+  | .nil, _, ts, h => by simp only [SEL.toks, UR.ok.injEq] at h; subst h; intro t ht; simp at ht
+  | .cons e es, hp, ts, h => by
+    simp only [SEL.printable, Bool.and_eq_true] at hp
+    simp only [SEL.toks] at h
+    obtain ⟨t1, h1, h⟩ := UR.bind_ok _ _ _ h
+    obtain ⟨t2, h2, h⟩ := UR.bind_ok _ _ _ h
+    simp only [UR.ok.injEq] at h; subst h
+    exact allLex_append (se_lexable e hp.1 false t1 h1) (sel_lexable es hp.2 t2 h2)
+end
+
+/-- **`lex ∘ render`.**  For every list of lexable tokens the text written by the printer's spacing rule
+lexes to exactly those tokens, in order, each with the span `[b, e)` of the text that was written for it. -/
+theorem lex_render (ts : List Tok) (h : ∀ t ∈ ts, t.lexable = true) :
+    ∃ pts, lex (render ts) = .ok pts ∧ toksOf pts = ts ∧ Sorted 0 pts ∧
+      ∀ pt ∈ pts, pt.e = pt.b + pt.tok.text.length ∧
+        ((render ts).drop pt.b).take (pt.e - pt.b) = pt.tok.text := by
+  refine ⟨place ts 0, B6.Lemmas.ShellLex.lex_render ts h, toks_place ts 0, sorted_place ts 0 0 (Nat.le_refl _), ?_⟩
+  intro pt hpt
+  obtain ⟨_, h2, h3⟩ := slices_place ts 0 pt hpt
+  exact ⟨h2, by simpa using h3⟩
+
+/-- **The property at the text level.**  A printable expression (strings and tag values without escapes — see
+the finding `string-needs-escape` —, finite floats in the printer's decimal form) prints to a text; lexing that
+text gives back the printed tokens with spans that hold exactly their texts; parsing those tokens gives the
+normal form of the expression; and the spans of the parsed tree nest (if it holds no `lat, lng`). -/
+theorem print_parse_roundtrip_text (e : SE) (hp : e.printable false = true) :
+    ∃ ts, e.toks true = .ok ts ∧
+      ∃ pts, lex (render ts) = .ok pts ∧ toksOf pts = ts ∧
+        (∀ pt ∈ pts, pt.e = pt.b + pt.tok.text.length ∧
+          ((render ts).drop pt.b).take (pt.e - pt.b) = pt.tok.text) ∧
+        ∃ n pe, PE.strip pe = e.normC ∧ (pe.noPoint = true → pe.nested = true) ∧
+          ∀ F, parseTop (F + n) pts = .ok pe := by
+  obtain ⟨ts, hts, hrt⟩ := print_parse_roundtrip e false hp
+  obtain ⟨pts, hlex, htoks, hsorted, hslices⟩ := lex_render ts (se_lexable e hp true ts hts)
+  obtain ⟨n, pe, hstrip, hnest, hparse⟩ := hrt pts 0 htoks hsorted
+  exact ⟨ts, hts, pts, hlex, htoks, hslices, n, pe, hstrip, fun h => (hnest h).1, hparse⟩
 
 /-! ## non-vacuity, and the text layer -/
 
